@@ -10,7 +10,7 @@ Shared block-tree development (C15, C16; reusable by C17, C23, C26, C31).  Core 
 
 Go pointers.  A `*node` is identified with the node of the tree that carries its hash; `n.parent` walks are
 walks along `pathF` (the list node, parent, …, root).  This is sound because block hashes are unique in the
-tree (an invariant proved for every history in Props/C15) and because the leaf map only ever holds pointers to
+tree (an invariant proved for every history: `Inv.nodup`, Lib/BlockTreeInv + `C15.reach`) and because the leaf map only ever holds pointers to
 nodes that are linked in the tree (AddBlock stores the node it has just linked; Prune rebuilds the map from
 `getLeaves`).
 -/
@@ -375,7 +375,7 @@ def chainAux (bs : List Block) : Nat → Hash → List Block
 namespace Spec
 
 /-- `h` upwards until a hash that is not a (non-root) block: the blocks `h, parent h, …` strictly below the root.
-    `blocks.length` steps suffice because a chain never repeats a block (`Props`: `chain_fuel`). -/
+    `blocks.length` steps suffice because a chain never repeats a block (`C15.spec_chain_fuel`). -/
 def chain (s : Spec) (h : Hash) : List Block := chainAux s.blocks s.blocks.length h
 
 def present (s : Spec) (h : Hash) : Prop := h = s.root.hash ∨ ∃ b ∈ s.blocks, b.hash = h
